@@ -1,5 +1,571 @@
 import Reduino.Lemmas.Field
 import Reduino.Fw.Buzzer
+import Mathlib.Tactic.NormNum
+import Mathlib.Tactic.Positivity
+import Mathlib.Algebra.BigOperators.Group.List.Basic
 /- helper lemmas for Props/C16.lean -/
+set_option linter.unusedSectionVars false
 namespace Reduino.Lemmas.C16
+open Reduino Reduino.Fw
+
+variable {K : Type} [Field K] [LinearOrder K] [IsStrictOrderedRing K] [FloorRing K]
+
+/-! ## numbers -/
+
+@[simp] theorem fzero_eq : (fzero : K) = 0 := by simp [fzero]
+@[simp] theorem lit_eq (a b : Int) : (lit a b : K) = (a : K) / (b : K) := rfl
+
+theorem toF_int (n : Int) : (Val.int n : Val K).toF = (n : K) := rfl
+theorem toF_flt (x : K) : (Val.flt x : Val K).toF = x := rfl
+
+theorem clamp0_eq (x : K) : Buzzer.clamp0 x = if x < 0 then 0 else x := by
+  simp [Buzzer.clamp0]
+
+theorem clamp0_pos {x : K} (h : 0 < x) : Buzzer.clamp0 x = x := by
+  rw [clamp0_eq, if_neg (not_lt.mpr h.le)]
+
+theorem clamp0_nonpos {x : K} (h : x ≤ 0) : Buzzer.clamp0 x = 0 := by
+  rw [clamp0_eq]; split
+  · rfl
+  · exact le_antisymm h (not_lt.mp ‹_›)
+
+theorem clamp0_nonneg (x : K) : 0 ≤ Buzzer.clamp0 x := by
+  rw [clamp0_eq]; split
+  · exact le_refl _
+  · exact not_lt.mp ‹_›
+
+theorem trunc_nonneg_eq {x : K} (h : 0 ≤ x) : (Num.trunc x : Int) = ⌊x⌋ := by
+  rw [trunc_eq, if_pos h]
+
+theorem toneOf_eq {f : K} (h : 0 ≤ f) : toneOf f = ⌊f + 1 / 2⌋ := by
+  unfold toneOf
+  rw [lit_eq, trunc_nonneg_eq (by push_cast; positivity)]
+  push_cast; rfl
+
+theorem toneOf_mono {f g : K} (hf : 0 ≤ f) (hfg : f ≤ g) : toneOf f ≤ toneOf g := by
+  rw [toneOf_eq hf, toneOf_eq (hf.trans hfg)]
+  exact Int.floor_le_floor (by linarith)
+
+/-- a successful cast to unsigned yields a non-negative number -/
+theorem toULong_nonneg {v : Val K} {t : Int} (h : toULong v = some t) : 0 ≤ t := by
+  cases v with
+  | int n =>
+    simp only [toULong] at h
+    split at h
+    · cases h
+    · cases h; omega
+  | flt x =>
+    simp only [toULong, fzero_eq] at h
+    split at h
+    · cases h
+    · cases h
+      rw [trunc_nonneg_eq (not_lt.mp ‹_›)]
+      exact Int.floor_nonneg.mpr (not_lt.mp ‹_›)
+
+/-! ## event projections (the same functions as in Props/C16, stated here for the helper lemmas) -/
+
+def isPin : Ev → Bool | .tone _ _ => true | .noTone _ => true | _ => false
+def delaysL (l : List Ev) : List Int := l.filterMap fun | .delay ms => some ms | _ => none
+def tonesL (l : List Ev) : List Int := l.filterMap fun | .tone _ f => some f | _ => none
+def pinL (l : List Ev) : List Ev := l.filter isPin
+
+@[simp] theorem delaysL_nil : delaysL [] = [] := rfl
+@[simp] theorem tonesL_nil : tonesL [] = [] := rfl
+@[simp] theorem pinL_nil : pinL [] = [] := rfl
+@[simp] theorem delaysL_append (a b : List Ev) : delaysL (a ++ b) = delaysL a ++ delaysL b := by
+  simp [delaysL]
+@[simp] theorem tonesL_append (a b : List Ev) : tonesL (a ++ b) = tonesL a ++ tonesL b := by
+  simp [tonesL]
+@[simp] theorem pinL_append (a b : List Ev) : pinL (a ++ b) = pinL a ++ pinL b := by
+  simp [pinL]
+@[simp] theorem delaysL_cons_tone (p f : Int) (l : List Ev) : delaysL (.tone p f :: l) = delaysL l := by
+  simp [delaysL]
+@[simp] theorem delaysL_cons_noTone (p : Int) (l : List Ev) : delaysL (.noTone p :: l) = delaysL l := by
+  simp [delaysL]
+@[simp] theorem delaysL_cons_delay (d : Int) (l : List Ev) : delaysL (.delay d :: l) = d :: delaysL l := by
+  simp [delaysL]
+@[simp] theorem tonesL_cons_tone (p f : Int) (l : List Ev) : tonesL (.tone p f :: l) = f :: tonesL l := by
+  simp [tonesL]
+@[simp] theorem tonesL_cons_noTone (p : Int) (l : List Ev) : tonesL (.noTone p :: l) = tonesL l := by
+  simp [tonesL]
+@[simp] theorem tonesL_cons_delay (d : Int) (l : List Ev) : tonesL (.delay d :: l) = tonesL l := by
+  simp [tonesL]
+@[simp] theorem pinL_cons_tone (p f : Int) (l : List Ev) : pinL (.tone p f :: l) = .tone p f :: pinL l := rfl
+@[simp] theorem pinL_cons_noTone (p : Int) (l : List Ev) : pinL (.noTone p :: l) = .noTone p :: pinL l := rfl
+@[simp] theorem pinL_cons_delay (d : Int) (l : List Ev) : pinL (.delay d :: l) = pinL l := rfl
+
+@[simp] theorem delaysL_delayIf (ms : Int) : delaysL (Buzzer.delayIf ms) = if 0 < ms then [ms] else [] := by
+  unfold Buzzer.delayIf; split <;> simp
+@[simp] theorem tonesL_delayIf (ms : Int) : tonesL (Buzzer.delayIf ms) = [] := by
+  unfold Buzzer.delayIf; split <;> simp
+@[simp] theorem pinL_delayIf (ms : Int) : pinL (Buzzer.delayIf ms) = [] := by
+  unfold Buzzer.delayIf; split <;> simp
+
+/-! ## sound / silence -/
+
+/-- the event `sound` emits -/
+def soundEv (pin : Int) (f : K) : Ev := if 0 < f then .tone pin (toneOf f) else .noTone pin
+
+/-- the state `sound` leaves -/
+def soundSt (b : Buzzer K) (f : K) : Buzzer K :=
+  if 0 < f then { b with state := true, current := f, last := f } else { b with state := false, current := 0 }
+
+def silentSt (b : Buzzer K) : Buzzer K := { b with state := false, current := 0 }
+
+theorem sound_eq (b : Buzzer K) (f : K) : Buzzer.sound b f = (soundSt b f, [soundEv b.pin f]) := by
+  unfold Buzzer.sound soundSt soundEv
+  simp only [fzero_eq]
+  split <;> rfl
+
+theorem silence_eq (b : Buzzer K) : Buzzer.silence b = (silentSt b, [.noTone b.pin]) := by
+  simp [Buzzer.silence, silentSt]
+
+@[simp] theorem soundSt_pin (b : Buzzer K) (f : K) : (soundSt b f).pin = b.pin := by
+  unfold soundSt; split <;> rfl
+@[simp] theorem silentSt_pin (b : Buzzer K) : (silentSt b).pin = b.pin := rfl
+@[simp] theorem silentSt_state (b : Buzzer K) : (silentSt b).state = false := rfl
+@[simp] theorem silentSt_current (b : Buzzer K) : (silentSt b).current = 0 := rfl
+@[simp] theorem silentSt_last (b : Buzzer K) : (silentSt b).last = b.last := rfl
+
+theorem soundEv_pos {f : K} (pin : Int) (h : 0 < f) : soundEv pin f = .tone pin (toneOf f) := by
+  simp [soundEv, h]
+theorem soundEv_nonpos {f : K} (pin : Int) (h : f ≤ 0) : soundEv pin f = .noTone pin := by
+  simp [soundEv, not_lt.mpr h]
+
+@[simp] theorem delaysL_soundEv (pin : Int) (f : K) (l : List Ev) : delaysL (soundEv pin f :: l) = delaysL l := by
+  unfold soundEv; split <;> simp
+
+/-! ## beep -/
+
+/-- events of `k` repetitions whose first event is `e0` -/
+def beepEvs (pin : Int) (e0 : Ev) (on off : Int) : Nat → List Ev
+  | 0 => []
+  | k + 1 =>
+    [e0] ++ Buzzer.delayIf on ++ [.noTone pin] ++ (if k = 0 then [] else Buzzer.delayIf off) ++ beepEvs pin e0 on off k
+
+def beepSt (b : Buzzer K) (ft : K) (k : Nat) : Buzzer K :=
+  if k = 0 then b else silentSt (soundSt b ft)
+
+theorem beepLoop_eq (ft : K) (on off : Int) (k total : Nat) (b : Buzzer K) (acc : List Ev) :
+    Buzzer.beepLoop ft on off k total b acc
+      = (beepSt b ft k, acc ++ beepEvs b.pin (soundEv b.pin ft) on off k) := by
+  induction k generalizing b acc with
+  | zero => simp [Buzzer.beepLoop, beepSt, beepEvs]
+  | succ k ih =>
+    simp only [Buzzer.beepLoop, sound_eq, silence_eq, ih, silentSt_pin, soundSt_pin]
+    refine Prod.ext ?_ ?_
+    · simp only [beepSt]
+      by_cases hk : k = 0
+      · simp [hk]
+      · simp only [hk, if_false, Nat.succ_ne_zero]
+        unfold silentSt soundSt
+        split <;> simp
+    · simp only [beepEvs, List.append_assoc]
+
+theorem beepSt_pin (b : Buzzer K) (ft : K) (k : Nat) : (beepSt b ft k).pin = b.pin := by
+  unfold beepSt; split <;> simp
+
+theorem pinL_beepEvs_getLast (pin : Int) (e0 : Ev) (on off : Int) (k : Nat) :
+    (pinL (beepEvs pin e0 on off k)).getLast? = if k = 0 then none else some (.noTone pin) := by
+  induction k with
+  | zero => simp [beepEvs]
+  | succ k ih =>
+    simp only [beepEvs, pinL_append, List.getLast?_append, ih]
+    by_cases hk : k = 0
+    · simp [hk]
+    · simp [hk]
+
+theorem tonesL_beepEvs_tone (pin t : Int) (on off : Int) (k : Nat) :
+    tonesL (beepEvs pin (.tone pin t) on off k) = List.replicate k t := by
+  induction k with
+  | zero => simp [beepEvs]
+  | succ k ih =>
+    simp only [beepEvs, tonesL_append, ih]
+    by_cases hk : k = 0
+    · simp [hk, List.replicate_succ]
+    · simp [hk, List.replicate_succ]
+
+theorem tonesL_beepEvs_noTone (pin : Int) (on off : Int) (k : Nat) :
+    tonesL (beepEvs pin (.noTone pin) on off k) = [] := by
+  induction k with
+  | zero => simp [beepEvs]
+  | succ k ih =>
+    simp only [beepEvs, tonesL_append, ih]
+    by_cases hk : k = 0
+    · simp [hk]
+    · simp [hk]
+
+/-! ## sweep -/
+
+def sweepProg (steps i : Int) : K := if steps = 1 then 1 else (i : K) / ((steps : K) - 1)
+/-- the unclamped interpolated frequency of step `i` -/
+def sweepG (s e : K) (steps i : Int) : K := s + (e - s) * sweepProg steps i
+def sweepF (s e : K) (steps i : Int) : K := Buzzer.clamp0 (sweepG s e steps i)
+def sweepD (sd : K) : List Ev := if 0 < sd then [.delay (Num.trunc sd)] else []
+
+def sweepEvs (pin : Int) (s e : K) (steps : Int) (sd : K) : Nat → Int → List Ev
+  | 0, _ => []
+  | k + 1, i => [soundEv pin (sweepF s e steps i)] ++ sweepD sd ++ sweepEvs pin s e steps sd k (i + 1)
+
+def sweepSt (s e : K) (steps : Int) : Nat → Int → Buzzer K → Buzzer K
+  | 0, _, b => b
+  | k + 1, i, b => sweepSt s e steps k (i + 1) (soundSt b (sweepF s e steps i))
+
+@[simp] theorem sweepSt_pin (s e : K) (steps : Int) (k : Nat) (i : Int) (b : Buzzer K) :
+    (sweepSt s e steps k i b).pin = b.pin := by
+  induction k generalizing i b with
+  | zero => rfl
+  | succ k ih => simp [sweepSt, ih]
+
+theorem sweepLoop_eq (s e : K) (steps : Int) (sd : K) (k : Nat) (i : Int) (b : Buzzer K) (acc : List Ev) :
+    Buzzer.sweepLoop s e steps sd k i b acc
+      = (sweepSt s e steps k i b, acc ++ sweepEvs b.pin s e steps sd k i) := by
+  induction k generalizing i b acc with
+  | zero => simp [Buzzer.sweepLoop, sweepSt, sweepEvs]
+  | succ k ih =>
+    have hf : Buzzer.clamp0 (s + (e - s) * (if steps = 1 then (Num.ofInt 1 : K)
+        else Num.ofInt i / (Num.ofInt steps - Num.ofInt 1))) = sweepF s e steps i := by
+      simp [sweepF, sweepG, sweepProg]
+    have hd : (if (fzero : K) < sd then [Ev.delay (Num.trunc sd)] else []) = sweepD sd := by
+      simp [sweepD]
+    simp only [Buzzer.sweepLoop, hf, hd, sound_eq, ih, soundSt_pin, sweepSt, sweepEvs, List.append_assoc]
+
+@[simp] theorem tonesL_sweepD (sd : K) : tonesL (sweepD sd) = [] := by
+  unfold sweepD; split <;> simp
+@[simp] theorem pinL_sweepD (sd : K) : pinL (sweepD sd) = [] := by
+  unfold sweepD; split <;> simp
+
+theorem tonesL_sweepEvs_pos (pin : Int) (s e : K) (steps : Int) (sd : K) (k : Nat) (i : Int)
+    (h : ∀ j : Nat, j < k → 0 < sweepF s e steps (i + j)) :
+    tonesL (sweepEvs pin s e steps sd k i)
+      = (List.range k).map (fun j : Nat => toneOf (sweepF s e steps (i + (j : Int)))) := by
+  induction k generalizing i with
+  | zero => simp [sweepEvs]
+  | succ k ih =>
+    have h0 : 0 < sweepF s e steps i := by simpa using h 0 (Nat.succ_pos _)
+    have ih' := ih (i + 1) (fun j hj => by
+      have := h (j + 1) (Nat.succ_lt_succ hj)
+      have e1 : i + 1 + (j : Int) = i + ((j + 1 : Nat) : Int) := by push_cast; ring
+      rw [e1]; exact this)
+    simp only [sweepEvs, tonesL_append, ih', soundEv_pos pin h0, tonesL_sweepD, List.range_succ_eq_map,
+      List.map_cons, List.map_map]
+    simp only [tonesL_cons_tone, tonesL_nil, List.append_nil, List.singleton_append, Nat.cast_zero, add_zero,
+      List.cons.injEq, true_and]
+    apply List.map_congr_left
+    intro j _
+    simp only [Function.comp, Nat.cast_succ]
+    congr 2; ring
+
+theorem tonesL_sweepEvs_nonpos (pin : Int) (s e : K) (steps : Int) (sd : K) (k : Nat) (i : Int)
+    (h : ∀ j : Int, sweepF s e steps j ≤ 0) :
+    tonesL (sweepEvs pin s e steps sd k i) = [] := by
+  induction k generalizing i with
+  | zero => simp [sweepEvs]
+  | succ k ih => simp [sweepEvs, ih, soundEv_nonpos pin (h i)]
+
+theorem delaysL_sweepEvs (pin : Int) (s e : K) (steps : Int) (sd : K) (k : Nat) (i : Int) :
+    delaysL (sweepEvs pin s e steps sd k i) = if 0 < sd then List.replicate k (Num.trunc sd) else [] := by
+  induction k generalizing i with
+  | zero => simp [sweepEvs]
+  | succ k ih =>
+    simp only [sweepEvs, List.singleton_append, delaysL_soundEv, delaysL_append, ih]
+    unfold sweepD
+    split <;> simp [List.replicate_succ]
+
+/-! ### sweep arithmetic -/
+
+theorem sweepProg_bounds {steps i : Int} (hn : 1 ≤ steps) (h0 : 0 ≤ i) (h1 : i ≤ steps - 1) :
+    0 ≤ (sweepProg steps i : K) ∧ (sweepProg steps i : K) ≤ 1 := by
+  unfold sweepProg
+  split
+  · exact ⟨zero_le_one, le_refl _⟩
+  · have hpos : (0 : K) < (steps : K) - 1 := by
+      have : (1 : Int) < steps := by omega
+      have : ((1 : Int) : K) < (steps : K) := Int.cast_lt.mpr this
+      push_cast at this; linarith
+    have hi0 : (0 : K) ≤ (i : K) := by exact_mod_cast h0
+    have hi1 : (i : K) ≤ (steps : K) - 1 := by
+      have : ((i : Int) : K) ≤ ((steps - 1 : Int) : K) := Int.cast_le.mpr h1
+      push_cast at this; exact this
+    exact ⟨div_nonneg hi0 hpos.le, (div_le_one hpos).mpr hi1⟩
+
+theorem sweepProg_mono {steps i j : Int} (hn : 1 ≤ steps) (hij : i ≤ j) :
+    (sweepProg steps i : K) ≤ sweepProg steps j := by
+  unfold sweepProg
+  split
+  · exact le_refl _
+  · have hpos : (0 : K) < (steps : K) - 1 := by
+      have : (1 : Int) < steps := by omega
+      have : ((1 : Int) : K) < (steps : K) := Int.cast_lt.mpr this
+      push_cast at this; linarith
+    have : (i : K) ≤ (j : K) := Int.cast_le.mpr hij
+    exact div_le_div_of_nonneg_right this hpos.le
+
+theorem sweepProg_last {steps : Int} (hn : 1 ≤ steps) : (sweepProg steps (steps - 1) : K) = 1 := by
+  unfold sweepProg
+  split
+  · rfl
+  · have hne : (steps : K) - 1 ≠ 0 := by
+      have : (1 : Int) < steps := by omega
+      have : ((1 : Int) : K) < (steps : K) := Int.cast_lt.mpr this
+      push_cast at this
+      exact ne_of_gt (by linarith)
+    push_cast
+    exact div_self hne
+
+theorem sweepProg_first {steps : Int} (hn : 1 < steps) : (sweepProg steps 0 : K) = 0 := by
+  unfold sweepProg
+  rw [if_neg (by omega)]
+  simp
+
+theorem sweepG_pos {s e : K} (hs : 0 < s) (he : 0 < e) {steps i : Int} (hn : 1 ≤ steps) (h0 : 0 ≤ i)
+    (h1 : i ≤ steps - 1) : 0 < sweepG s e steps i := by
+  obtain ⟨hp0, hp1⟩ := sweepProg_bounds (K := K) hn h0 h1
+  unfold sweepG
+  rcases le_total s e with hse | hes
+  · have : 0 ≤ (e - s) * sweepProg steps i := mul_nonneg (by linarith) hp0
+    linarith
+  · have : (e - s) * 1 ≤ (e - s) * sweepProg steps i :=
+      mul_le_mul_of_nonpos_left hp1 (by linarith)
+    linarith
+
+theorem sweepF_eq {s e : K} (hs : 0 < s) (he : 0 < e) {steps i : Int} (hn : 1 ≤ steps) (h0 : 0 ≤ i)
+    (h1 : i ≤ steps - 1) : sweepF s e steps i = sweepG s e steps i :=
+  clamp0_pos (sweepG_pos hs he hn h0 h1)
+
+theorem sweepG_mono_up {s e : K} (hse : s ≤ e) {steps i j : Int} (hn : 1 ≤ steps) (hij : i ≤ j) :
+    sweepG s e steps i ≤ sweepG s e steps j := by
+  unfold sweepG
+  have := mul_le_mul_of_nonneg_left (sweepProg_mono (K := K) hn hij) (sub_nonneg.mpr hse)
+  linarith
+
+theorem sweepG_mono_down {s e : K} (hes : e ≤ s) {steps i j : Int} (hn : 1 ≤ steps) (hij : i ≤ j) :
+    sweepG s e steps j ≤ sweepG s e steps i := by
+  unfold sweepG
+  have := mul_le_mul_of_nonpos_left (sweepProg_mono (K := K) hn hij) (sub_nonpos.mpr hes)
+  linarith
+
+/-- the tones of a sweep between positive frequencies -/
+theorem sweep_tones (pin : Int) {s e : K} (hs : 0 < s) (he : 0 < e) {n : Int} (hn : 1 ≤ n) (sd : K) :
+    let ts := tonesL (sweepEvs pin s e n sd n.toNat 0)
+    ts.length = n.toNat ∧
+    (s ≤ e → List.Pairwise (· ≤ ·) ts) ∧ (e ≤ s → List.Pairwise (· ≥ ·) ts) ∧
+    ts.getLast? = some (toneOf e) ∧
+    (1 < n → ts.head? = some (toneOf s)) := by
+  intro ts
+  have hN : ((n.toNat : Nat) : Int) = n := Int.toNat_of_nonneg (by omega)
+  have hrange : ∀ j : Nat, j < n.toNat → (0 : Int) ≤ 0 + (j : Int) ∧ 0 + (j : Int) ≤ n - 1 := by
+    intro j hj; omega
+  have hts : ts = (List.range n.toNat).map (fun j : Nat => toneOf (sweepG s e n (0 + (j : Int)))) := by
+    show tonesL _ = _
+    rw [tonesL_sweepEvs_pos]
+    · apply List.map_congr_left
+      intro j hj
+      have hj' := List.mem_range.mp hj
+      rw [sweepF_eq hs he hn (hrange j hj').1 (hrange j hj').2]
+    · intro j hj
+      rw [sweepF_eq hs he hn (hrange j hj).1 (hrange j hj).2]
+      exact sweepG_pos hs he hn (hrange j hj).1 (hrange j hj).2
+  have hpos : 0 < n.toNat := by omega
+  refine ⟨by rw [hts]; simp, ?_, ?_, ?_, ?_⟩
+  · intro hse
+    rw [hts, List.pairwise_map]
+    refine List.Pairwise.imp_of_mem ?_ List.pairwise_lt_range
+    intro a b ha hb hab
+    have ha' := List.mem_range.mp ha
+    apply toneOf_mono (sweepG_pos hs he hn (hrange a ha').1 (hrange a ha').2).le
+    exact sweepG_mono_up hse hn (by omega)
+  · intro hes
+    rw [hts, List.pairwise_map]
+    refine List.Pairwise.imp_of_mem ?_ List.pairwise_lt_range
+    intro a b ha hb hab
+    have hb' := List.mem_range.mp hb
+    show toneOf _ ≤ toneOf _
+    apply toneOf_mono (sweepG_pos hs he hn (hrange b hb').1 (hrange b hb').2).le
+    exact sweepG_mono_down hes hn (by omega)
+  · rw [hts]
+    obtain ⟨m, hm⟩ : ∃ m, n.toNat = m + 1 := ⟨n.toNat - 1, by omega⟩
+    rw [hm, List.range_succ, List.map_append, List.map_singleton, List.getLast?_concat]
+    have : (0 : Int) + (m : Int) = n - 1 := by omega
+    rw [this]
+    unfold sweepG
+    rw [sweepProg_last hn]
+    congr 2; ring
+  · intro h1
+    rw [hts]
+    obtain ⟨m, hm⟩ : ∃ m, n.toNat = m + 1 := ⟨n.toNat - 1, by omega⟩
+    rw [hm, List.range_succ_eq_map, List.map_cons, List.head?_cons]
+    simp only [Nat.cast_zero, add_zero]
+    unfold sweepG
+    rw [sweepProg_first h1]
+    congr 2; ring
+
+/-- the delays of a sweep never add up to more than the requested duration -/
+theorem sweep_delays (pin : Int) (s e : K) {n total : Int} (hn : 1 ≤ n) (ht : 0 ≤ total) (i : Int) :
+    (delaysL (sweepEvs pin s e n ((total : K) / (n : K)) n.toNat i)).sum ≤ total := by
+  rw [delaysL_sweepEvs]
+  split
+  · rename_i hsd
+    rw [List.sum_replicate, nsmul_eq_mul, trunc_nonneg_eq hsd.le]
+    have hN : ((n.toNat : Nat) : Int) = n := Int.toNat_of_nonneg (by omega)
+    have hnK : (0 : K) < (n : K) := by exact_mod_cast (by omega : (0 : Int) < n)
+    have h1 : ((⌊(total : K) / (n : K)⌋ : Int) : K) ≤ (total : K) / (n : K) := Int.floor_le _
+    have h2 : (n : K) * ((⌊(total : K) / (n : K)⌋ : Int) : K) ≤ (total : K) := by
+      calc (n : K) * ((⌊(total : K) / (n : K)⌋ : Int) : K) ≤ (n : K) * ((total : K) / (n : K)) :=
+            mul_le_mul_of_nonneg_left h1 hnK.le
+        _ = (total : K) := by field_simp
+    have h3 : ((n * ⌊(total : K) / (n : K)⌋ : Int) : K) ≤ ((total : Int) : K) := by
+      push_cast; exact h2
+    have := Int.cast_le.mp h3
+    rw [hN]
+    exact this
+  · simpa using ht
+
+/-! ## melody -/
+
+/-- what the score prescribes (same definition as `Props.C16.scoreEvents`) -/
+def scoreEvs (pin : Int) (beatMs : K) : List ((Int × Int) × (Int × Int)) → List Ev
+  | [] => []
+  | ((fn, fd), (bn, bd)) :: rest =>
+    let f : K := if fn = 0 then 0 else (fn : K) / (fd : K)
+    let dur : K := (bn : K) / (bd : K) * beatMs
+    let d : List Ev := if 0 < dur then [.delay ⌊dur⌋] else []
+    (if f ≤ 0 then [.noTone pin] ++ d else [.tone pin ⌊f + 1 / 2⌋] ++ d ++ [.noTone pin]) ++ scoreEvs pin beatMs rest
+
+def melSt : List ((Int × Int) × (Int × Int)) → Buzzer K → Buzzer K
+  | [], b => b
+  | ((fn, fd), _) :: rest, b =>
+    let f : K := if fn = 0 then 0 else (fn : K) / (fd : K)
+    melSt rest (silentSt (if f ≤ 0 then b else { b with state := true, current := f, last := f }))
+
+theorem melSt_props (notes : List ((Int × Int) × (Int × Int))) (b : Buzzer K) :
+    (melSt notes b).pin = b.pin ∧
+    (melSt notes b).state = (if notes = [] then b.state else false) ∧
+    (melSt notes b).current = (if notes = [] then b.current else 0) := by
+  induction notes generalizing b with
+  | nil => simp [melSt]
+  | cons x rest ih =>
+    obtain ⟨⟨fn, fd⟩, ⟨bn, bd⟩⟩ := x
+    simp only [melSt, reduceCtorEq, if_false]
+    obtain ⟨h1, h2, h3⟩ := ih (silentSt (if (if fn = 0 then (0 : K) else (fn : K) / (fd : K)) ≤ 0 then b
+      else { b with state := true, current := (if fn = 0 then (0 : K) else (fn : K) / (fd : K)),
+                    last := (if fn = 0 then (0 : K) else (fn : K) / (fd : K)) }))
+    refine ⟨?_, ?_, ?_⟩
+    · rw [h1, silentSt_pin]; split <;> rfl
+    · rw [h2]; split <;> rfl
+    · rw [h3]; split <;> rfl
+
+theorem melodyLoop_eq (beatMs : K) (notes : List ((Int × Int) × (Int × Int))) (b : Buzzer K) (acc : List Ev) :
+    Buzzer.melodyLoop beatMs notes b acc = (melSt notes b, acc ++ scoreEvs b.pin beatMs notes) := by
+  induction notes generalizing b acc with
+  | nil => simp [Buzzer.melodyLoop, melSt, scoreEvs]
+  | cons x rest ih =>
+    obtain ⟨⟨fn, fd⟩, ⟨bn, bd⟩⟩ := x
+    simp only [Buzzer.melodyLoop, silence_eq, fzero_eq, lit_eq, ih, melSt, scoreEvs, silentSt_pin]
+    have hd : (if 0 < (bn : K) / (bd : K) * beatMs then [Ev.delay (Num.trunc ((bn : K) / (bd : K) * beatMs))] else [])
+        = (if 0 < (bn : K) / (bd : K) * beatMs then [Ev.delay ⌊(bn : K) / (bd : K) * beatMs⌋] else []) := by
+      split
+      · rw [trunc_nonneg_eq (le_of_lt ‹_›)]
+      · rfl
+    rw [hd]
+    split
+    · rename_i hf
+      simp [hf]
+    · rename_i hf
+      rw [toneOf_eq (le_of_lt (not_le.mp hf))]
+      simp [hf]
+
+theorem pinL_scoreEvs_getLast (pin : Int) (beatMs : K) (notes : List ((Int × Int) × (Int × Int))) :
+    (pinL (scoreEvs pin beatMs notes)).getLast? = if notes = [] then none else some (.noTone pin) := by
+  induction notes with
+  | nil => simp [scoreEvs]
+  | cons x rest ih =>
+    obtain ⟨⟨fn, fd⟩, ⟨bn, bd⟩⟩ := x
+    simp only [scoreEvs, pinL_append, List.getLast?_append, ih, reduceCtorEq, if_false]
+    have hd : pinL (if 0 < (bn : K) / (bd : K) * beatMs then [Ev.delay ⌊(bn : K) / (bd : K) * beatMs⌋] else []) = [] := by
+      split <;> simp
+    by_cases hr : rest = []
+    · simp only [hr, if_true, Option.none_or]
+      split
+      · simp [hd]
+      · simp [hd]
+    · simp [hr]
+
+/-! ## the blocks -/
+
+theorem step_playTone_none (b : Buzzer K) (f : Val K) :
+    Buzzer.step b (.playTone f none)
+      = { st := soundSt b (Buzzer.clamp0 f.toF), evs := [soundEv b.pin (Buzzer.clamp0 f.toF)] } := by
+  simp [Buzzer.step, sound_eq]
+
+theorem step_playTone_some (b : Buzzer K) (f d : Val K) (ms : Int) (h : toULong d = some ms) :
+    Buzzer.step b (.playTone f (some d))
+      = { st := silentSt (soundSt b (Buzzer.clamp0 f.toF)),
+          evs := [soundEv b.pin (Buzzer.clamp0 f.toF)] ++ Buzzer.delayIf ms ++
+                   (if 0 < Buzzer.clamp0 f.toF then [.noTone b.pin] else []) } := by
+  simp [Buzzer.step, sound_eq, h, silentSt]
+
+theorem step_playTone_undef (b : Buzzer K) (f d : Val K) (h : toULong d = none) :
+    (Buzzer.step b (.playTone f (some d))).defined = false := by
+  simp [Buzzer.step, sound_eq, h]
+
+theorem step_stop (b : Buzzer K) : Buzzer.step b .stop = { st := silentSt b, evs := [.noTone b.pin] } := by
+  simp [Buzzer.step, silence_eq]
+
+/-- the frequency a beep uses -/
+def beepFreq (b : Buzzer K) (f : Option (Val K)) : K :=
+  Buzzer.clamp0 (match f with | some f => f.toF | none => b.last)
+
+theorem step_beep (b : Buzzer K) (f : Option (Val K)) (on off n : Val K) (onMs offMs : Int)
+    (hon : toULong on = some onMs) (hoff : toULong off = some offMs) :
+    Buzzer.step b (.beep f on off n)
+      = { st := beepSt b (beepFreq b f) (toCInt n).toNat,
+          evs := beepEvs b.pin (soundEv b.pin (beepFreq b f)) onMs offMs (toCInt n).toNat } := by
+  simp [Buzzer.step, hon, hoff, beepLoop_eq, beepFreq]
+
+theorem step_beep_undef (b : Buzzer K) (f : Option (Val K)) (on off n : Val K)
+    (h : toULong on = none ∨ toULong off = none) :
+    (Buzzer.step b (.beep f on off n)).defined = false := by
+  simp only [Buzzer.step]
+  split
+  · rename_i h1 h2
+    rcases h with h | h
+    · rw [h] at h1; cases h1
+    · rw [h] at h2; cases h2
+  · rfl
+
+/-- the step count a sweep uses -/
+def sweepN (n : Val K) : Int := if toCInt n < 1 then 1 else toCInt n
+
+theorem sweepN_pos (n : Val K) : 1 ≤ sweepN n := by
+  unfold sweepN; split <;> omega
+
+theorem step_sweep (b : Buzzer K) (s e d n : Val K) (total : Int) (hd : toULong d = some total) :
+    Buzzer.step b (.sweep s e d n)
+      = { st := silentSt (sweepSt (Buzzer.clamp0 s.toF) (Buzzer.clamp0 e.toF) (sweepN n) (sweepN n).toNat 0 b),
+          evs := sweepEvs b.pin (Buzzer.clamp0 s.toF) (Buzzer.clamp0 e.toF) (sweepN n)
+                   ((total : K) / ((sweepN n : Int) : K)) (sweepN n).toNat 0 ++ [.noTone b.pin] } := by
+  simp [Buzzer.step, hd, sweepLoop_eq, silence_eq, sweepN]
+
+theorem step_sweep_undef (b : Buzzer K) (s e d n : Val K) (hd : toULong d = none) :
+    Buzzer.step b (.sweep s e d n) = { st := b, evs := [], defined := false } := by
+  simp [Buzzer.step, hd]
+
+/-- the tempo a melody is played at -/
+def melTempo (sc : Score) (t : Option (Val K)) : K :=
+  let dflt : K := (sc.tempo.1 : K) / (sc.tempo.2 : K)
+  let t0 : K := match t with | some v => v.toF | none => dflt
+  if t0 ≤ 0 then dflt else t0
+
+theorem step_melody (b : Buzzer K) (name : String) (t : Option (Val K)) (sc : Score)
+    (h : melodies.lookup name = some sc) :
+    Buzzer.step b (.melody name t)
+      = { st := melSt sc.notes b, evs := scoreEvs b.pin (60000 / melTempo sc t) sc.notes } := by
+  simp [Buzzer.step, h, melodyLoop_eq, melTempo]
+
+theorem step_melody_unknown (b : Buzzer K) (name : String) (t : Option (Val K))
+    (h : melodies.lookup name = none) :
+    Buzzer.step b (.melody name t) = { st := b, evs := [] } := by
+  simp [Buzzer.step, h]
+
 end Reduino.Lemmas.C16
